@@ -49,6 +49,7 @@ def families(tier):
     ok("ring3_dfix", 0, 4)
     ok("ring3_split", 0, 4)
     ok("ring2_pull", 3, 4)
+    ok("ring2_tail_in", 3, 4)
     bad("ring2", 4, 6)
     bad("ring2", 4, 6, strict=True)
     bad("ring2_scale", 0, 6)
@@ -56,6 +57,8 @@ def families(tier):
     bad("ring3", 3, 4)
     bad("ring3", 3, 4, strict=True)
     bad("ring3_chord", 0, 4)
+    bad("ring3_delayed_chord", 3, 4)
+    bad("ring3_delayed_chord", 0, 4, strict=True)
     bad("ring2_tail", 0, 4)
     bad("ring2_pull", 4, 5)
     bad("ring2_pull", 4, 5, strict=True)
